@@ -178,6 +178,31 @@ func genSrvSec(repo string) (string, error) {
 		}
 	}
 
+	// 3b. is the requested (policy, mode) pair submitted to the server's enabled set before it is adopted?
+	// handleOpenSecureChannelRequest must consult cfg.AcceptSecurity and RegisterConn must install it.
+	usesAccept := func(dir, fn string) (bool, error) {
+		fd, err := srvrobFindFunc(fset, filepath.Join(repo, dir), fn)
+		if err != nil {
+			return false, err
+		}
+		found := false
+		ast.Inspect(fd.Body, func(n ast.Node) bool {
+			if s, ok := n.(*ast.SelectorExpr); ok && s.Sel.Name == "AcceptSecurity" {
+				found = true
+			}
+			return true
+		})
+		return found, nil
+	}
+	a1, err := usesAccept("uasc", "handleOpenSecureChannelRequest")
+	if err != nil {
+		return "", err
+	}
+	a2, err := usesAccept("server", "RegisterConn")
+	if err != nil {
+		return "", err
+	}
+
 	// 4. the policies the code supports (evaluated)
 	var pols []string
 	for _, p := range uapolicy.SupportedPolicies() {
@@ -199,6 +224,8 @@ func genSrvSec(repo string) (string, error) {
 		fmt.Fprintf(&sb, "(%s, %s)", srvsecLeanStr(w.fn), srvsecLeanStr(w.field))
 	}
 	sb.WriteString("]\n\n")
+	sb.WriteString("/-- handleOpenSecureChannelRequest asks `cfg.AcceptSecurity` and RegisterConn installs the server's predicate -/\n")
+	fmt.Fprintf(&sb, "def opnChecksEnabled : Bool := %v\n\n", a1 && a2)
 	sb.WriteString("/-- `defaultChannelConfig()` in server/server_config.go -/\n")
 	fmt.Fprintf(&sb, "def defaultChannelPolicy : String := %s\n", srvsecLeanStr(defPolicy))
 	fmt.Fprintf(&sb, "def defaultChannelMode : String := %s\n\n", srvsecLeanStr(defMode))
